@@ -249,6 +249,7 @@ def run_typed(res, tier, want):
 def check_typed(prop, tier, replay):
     res = vlib.Result(prop, tier, "other")
     mgen, mdist, mnames = vlib.model_check_all([("Typed", "Typed.cfg")])
+    mnames = mnames + [vlib.prove("TypedProofs")]
     st = run_typed(res, tier, TYPED_CLASSES)
     lines, snaps, reqs, pkgs, samples = st["lines"], st["snaps"], st["reqs"], st["pkgs"], st["samples"]
     # the generated joins: each of them against the reference selection (the replication controller's own
